@@ -715,6 +715,26 @@ Fixpoint deleg_history (local : list ipaddr) (st : deleg_state) (evs : list dele
       (st2, r :: rs)
   end.
 
+(* Resolver.searchCache(q, cd, origin): where a resolution starts.  The delegation cache is asked for the
+   question name, then for each of its ancestors (a DS question starts one label up: the parent side answers);
+   the first entry on file wins and seeds rs.level with the labels it shares with the origin; with no entry
+   the root servers are used at level 0.  (The branch that drops an entry whose servers failed ten times
+   - ErrorCount - restarts the same walk and is left out.) *)
+Fixpoint search_walk (dc : deleg_cache) (n : name) (k : nat) : option (name * deleg_entry) :=
+  match k with
+  | O => None
+  | S k' => match deleg_get (firstn k n) dc with
+            | Some e => Some (firstn k n, e)
+            | None => search_walk dc n k'
+            end
+  end.
+Definition search_cache (dc : deleg_cache) (ds : bool) (qname : name) : option (name * deleg_entry) * nat :=
+  let start := if ds then removelast qname else qname in
+  match search_walk dc start (length start) with
+  | Some (z, e) => (Some (z, e), compare_suffix qname z)
+  | None => (None, 0%nat)
+  end.
+
 (* ------------------------------------------------------------------ *)
 (* source text helper for the shape ties *)
 Definition s2b (s : string) : list N := map (fun c => N_of_ascii c) (list_ascii_of_string s).
